@@ -81,7 +81,7 @@ Definition none_of (r : rnd) : value :=
 Definition in_range (r : rnd) (raw : value) : Prop :=
   match r with
   | RRangeI lo hi _ _ => exists z, raw = VInt z /\ lo <= z < hi
-  | RRangeF lo hi _ _ => exists q, raw = VFlt q /\ (lo <= q)%Q /\ (q < hi)%Q
+  | RRangeF lo hi _ _ => exists q, raw = VFlt q /\ (lo <= q)%Q /\ (q < hi)%Q /\ Qred q = q   (* canonical *)
   | RDate mn days stamp _ =>
       exists k, 0 <= k < days /\ raw = if stamp then VFlt (js_stamp (mn + k)) else VDate (mn + k)
   | RValue v _ => raw = v
@@ -124,7 +124,8 @@ Proof.
   - destruct (next s1) as [d s2]. cbn [fst]. exists (randrange lo hi d).
     split; [reflexivity | apply randrange_range; exact Hwf].
   - destruct (next s1) as [d s2]. cbn [fst]. exists (uniform lo hi d).
-    split; [reflexivity | apply uniform_range; exact Hwf].
+    destruct (uniform_range lo hi d Hwf) as [U1 U2].
+    refine (conj eq_refl (conj U1 (conj U2 _))). unfold uniform. apply Qred_complete. apply Qred_correct.
   - destruct (next s1) as [d s2]. cbn [fst]. exists (randrange 0 days d).
     split; [pose proof (randrange_range 0 days d Hwf); lia | reflexivity].
   - reflexivity.
